@@ -40,7 +40,7 @@ var objSchemaTypes = map[string]string{
 
 // package-level definitions whose text the side condition pins
 var objSchemaDefs = []string{"TypeNamePattern", "TypeTypeName", "MemberNamePattern", "TypeMemberName", "TypeMemberNames",
-	"TypeAttributes", "TypeParameters", "TypeEquality"}
+	"TypeAttributes", "TypeParameters", "TypeFunctions", "TypeEquality"}
 
 func stringConsts(f *ast.File) map[string]string {
 	vals := map[string]string{}
